@@ -24,3 +24,5 @@ def run(ck):
     matrix.r17_zero_divisor_always_reported(ck, P)
     matrix.r18_division_digit_shortcuts_are_strict(ck, P)
     matrix.r19_division_guarded_by_its_zero_test(ck, P)
+    matrix.r20_matrix_unit_keeps_no_state(ck, P)
+    matrix.r21_product_elements_are_sums_of_products(ck, P)
